@@ -107,6 +107,8 @@ func RunVictim(dir string, opJSON string) int {
 		err = s.UpdateCloneInfo(op.Name, "7")
 	case "close":
 		err = s.Close()
+	case "reload":
+		err = s.Reload()
 	case "setrev":
 		err = s.SetRevisionCounter(op.Size)
 	default:
